@@ -21,3 +21,13 @@ func (s *Server) VerifAddr() net.Addr {
 	}
 	return s.listener.Addr()
 }
+
+// VerifSpawnHook, when set, is called as the first statement of every session goroutine, i.e.
+// after the connection has been accepted and before the session registers with the wait group.
+var VerifSpawnHook func()
+
+func verifSessionSpawned() {
+	if h := VerifSpawnHook; h != nil {
+		h()
+	}
+}
